@@ -70,6 +70,11 @@ pub struct Solo {
     pub world: Rc<RefCell<LinkWorld>>,
 }
 
+thread_local! {
+    /// delay between `Multiplexor::new_detailed` and the start of the connection task (C16)
+    pub static TASK_START_DELAY_MS: std::cell::Cell<u64> = const { std::cell::Cell::new(0) };
+}
+
 /// policy of the peer's receive loop
 #[derive(Clone, Copy)]
 pub struct RxPolicy {
@@ -95,7 +100,12 @@ pub fn setup(cfg: &EpCfg, opts: penguin_mux::config::Options, link_cfg: &LinkCfg
     let (m, t) = Multiplexor::new_detailed::<_, SimInstant>(SimWs { link: link.clone(), me: 0 }, opts, rng);
     let task_end = Rc::new(RefCell::new(None));
     let (te, seq2, t0) = (task_end.clone(), seq.clone(), tokio::time::Instant::now());
+    let start_delay = TASK_START_DELAY_MS.with(|c| c.get());
     sim.spawn("conn0", CLS_CONN0, async move {
+        // the application may start the connection task some time after building the multiplexor
+        if start_delay > 0 {
+            tokio::time::sleep(Duration::from_millis(start_delay)).await;
+        }
         let r = t.into_task().await;
         *te.borrow_mut() = Some((seq2.tick(), format!("{r:?}"), t0.elapsed()));
     });
@@ -873,6 +883,22 @@ pub struct C16Plan {
     pub tail: Option<u64>,
     pub link: LinkCfg,
     pub weights: [u32; NCLS],
+    /// when the peer dies, the endpoint's outgoing direction stalls too (a full TCP send buffer
+    /// towards a host that is gone): the sink stays Pending for ever, it does not fail
+    #[serde(default)]
+    pub stuck_sink: bool,
+    /// the connection task is started this long after the multiplexor was built ("start-up" in the
+    /// statement is the start of the task: nothing can be pinged or timed before)
+    #[serde(default)]
+    pub start_delay_ms: u64,
+    /// call the builder's keepalive_timeout() before keepalive_interval(): a builder does not
+    /// prescribe an order, the effective values must be the same
+    #[serde(default)]
+    pub timeout_first: bool,
+    /// the (live, ping-answering) peer opens this many streams at once while the application
+    /// accepts only one: more than stream_buffer_size + 1 of them fill the accept backlog
+    #[serde(default)]
+    pub flood_connects: usize,
 }
 
 pub fn run_c16(plan: &C16Plan, sched: &Sched, record: bool) -> Outcome {
@@ -885,9 +911,12 @@ async fn run_c16_async(plan: C16Plan, sched: Sched, record: bool) -> Outcome {
     let (i_ms, t_req) = (plan.interval_ms, plan.timeout_ms);
     let od = |x: u64| if x == 0 { OptionalDuration::NONE } else { OptionalDuration::from(ms(x)) };
     // documented order: interval first, then timeout (so that T < I is clamped)
-    let opts = Options::new().keepalive_interval(od(i_ms)).keepalive_timeout(od(t_req));
+    let opts = if plan.timeout_first { Options::new().keepalive_timeout(od(t_req)).keepalive_interval(od(i_ms)) } else { Options::new().keepalive_interval(od(i_ms)).keepalive_timeout(od(t_req)) };
     let cfg = EpCfg::default();
+    TASK_START_DELAY_MS.with(|c| c.set(plan.start_delay_ms));
     let mut s = setup(&cfg, opts, &plan.link, plan.weights, &sched, record, RxPolicy { ack_pushes: false, ack_req_connects: None }, Rc::new(RefCell::new(vec![])));
+    TASK_START_DELAY_MS.with(|c| c.set(0));
+    let d0 = ms(plan.start_delay_ms);
     s.link.lock().unwrap().auto_pong = [true, false];
     let t0 = s.link.lock().unwrap().t0;
     // pending operations that must observe the end of the connection
@@ -905,6 +934,14 @@ async fn run_c16_async(plan: C16Plan, sched: Sched, record: bool) -> Outcome {
             *ae.borrow_mut() = Some(format!("{:?}", r.map(|_| ())));
         });
     }
+    if plan.flood_connects > 0 {
+        let (raw, n) = (s.raw.clone(), plan.flood_connects);
+        s.sim.spawn("flood", CLS_OTHER, async move {
+            for k in 0..n {
+                raw.borrow_mut().send(RFrame::Connect { id: 0x0f10_0000 + k as u32, rwnd: 4, port: k as u16, host: format!("f{k}").into_bytes() });
+            }
+        });
+    }
     // the peer's pong policy
     let sp = s.sim.spawner();
     {
@@ -920,6 +957,9 @@ async fn run_c16_async(plan: C16Plan, sched: Sched, record: bool) -> Outcome {
                         None => {
                             // a dead peer: the transport returns nothing any more, not even Close
                             link.lock().unwrap().set_hold(1, true);
+                            if plan2.stuck_sink {
+                                link.lock().unwrap().set_hold(0, true);
+                            }
                         }
                         Some(d) => {
                             let raw = raw.clone();
@@ -937,7 +977,7 @@ async fn run_c16_async(plan: C16Plan, sched: Sched, record: bool) -> Outcome {
         });
     }
     let t_ms = if t_req == 0 { 0 } else { t_req.max(i_ms) };
-    let horizon = ms(if i_ms == 0 { 600_000 } else { (i_ms * 50).max(t_ms + 12 * i_ms) } + 7);
+    let horizon = ms(if i_ms == 0 { 600_000 } else { (i_ms * 50).max(t_ms + 12 * i_ms) } + 7) + d0;
     let end = s.sim.run(5_000_000, horizon).await;
     let mut o = Outcome { digest: s.sim.digest.0 ^ s.seq.now(), steps: s.sim.steps, decisions: s.sim.decisions.take().unwrap_or_default(), sim_ms: horizon.as_millis() as u64, ..Default::default() };
     if end != End::Quiescent {
@@ -948,7 +988,7 @@ async fn run_c16_async(plan: C16Plan, sched: Sched, record: bool) -> Outcome {
     let pings: Vec<(u64, Duration)> = l.evs.iter().filter(|e| e.stage == Stage::Sent && e.from == 0 && matches!(&*e.w, Wire::Ping)).map(|e| (e.seq, e.t)).collect();
     let pongs: Vec<(u64, Duration)> = l.evs.iter().filter(|e| e.stage == Stage::Consumed && e.from == 1 && matches!(&*e.w, Wire::Pong)).map(|e| (e.seq, e.t)).collect();
     let te = s.task_end.borrow().clone();
-    let desc = format!("I={i_ms}ms T(requested)={t_req}ms T(effective)={t_ms}ms delays={:?} tail={:?} pings={} pongs={} task_end={:?}", plan.delays, plan.tail, pings.len(), pongs.len(), te.as_ref().map(|t| (t.1.clone(), t.2)));
+    let desc = format!("I={i_ms}ms T(requested)={t_req}ms T(effective)={t_ms}ms task started {d0:?} after construction, builder order: {}, peer opens {} streams at once, delays={:?} tail={:?} pings={} pongs={} task_end={:?}", if plan.timeout_first { "timeout first" } else { "interval first" }, plan.flood_connects, plan.delays, plan.tail, pings.len(), pongs.len(), te.as_ref().map(|t| (t.1.clone(), t.2)));
     o.note = desc.clone();
     // ---- disabled: no ping is sent and no timeout ever occurs
     if i_ms == 0 {
@@ -964,8 +1004,8 @@ async fn run_c16_async(plan: C16Plan, sched: Sched, record: bool) -> Outcome {
     }
     // ---- a ping is sent every I (exact virtual time)
     for (k, (_, t)) in pings.iter().enumerate() {
-        if *t != ms(i_ms * k as u64) {
-            o.violate("C16:ping-schedule", format!("ping {k} was sent at {t:?}, expected {:?}; {desc}", ms(i_ms * k as u64)));
+        if *t != d0 + ms(i_ms * k as u64) {
+            o.violate("C16:ping-schedule", format!("ping {k} was sent at {t:?}, expected {:?}; {desc}", d0 + ms(i_ms * k as u64)));
             break;
         }
     }
@@ -992,19 +1032,22 @@ async fn run_c16_async(plan: C16Plan, sched: Sched, record: bool) -> Outcome {
             let close_seq = l.evs.iter().find(|e| e.stage == Stage::Sent && e.from == 0 && matches!(&*e.w, Wire::Close)).map(|e| e.seq).unwrap_or(*tseq);
             // exactly: the decision is taken in the first poll of the connection task at the virtual
             // instant of the fatal tick (the interval is ready from that instant on)
-            let fatal_tick = pings.last().map(|p| p.1 + ti).filter(|t| *t <= tau).unwrap_or(tau);
+            // (with a stuck sink later pings never leave, so the tick grid is used instead of the last ping)
+            let fatal_tick = if plan.stuck_sink { d0 + ms((tau.saturating_sub(d0).as_millis() as u64 / i_ms) * i_ms) } else { pings.last().map(|p| p.1 + ti).filter(|t| *t <= tau).unwrap_or(tau) };
             let dseq = s.sim.conn0_polls.iter().find(|(_, at)| at.duration_since(t0) >= fatal_tick).map(|(q, _)| *q).unwrap_or(close_seq).min(close_seq);
-            let last = pongs.iter().filter(|(q, _)| *q < dseq).map(|(_, t)| *t).filter(|t| *t <= tau).last().unwrap_or(Duration::ZERO);
+            let last = pongs.iter().filter(|(q, _)| *q < dseq).map(|(_, t)| *t).filter(|t| *t <= tau).last().unwrap_or(d0);
             // the last pong that had *arrived* at the endpoint's socket before the decision, consumed or not:
             // an implementation that looks at its socket before judging sees it
-            let last_arrived = l.evs.iter().filter(|e| e.stage == Stage::Delivered && e.from == 1 && matches!(&*e.w, Wire::Pong) && e.seq < dseq).map(|e| e.t).last().unwrap_or(Duration::ZERO);
+            let last_arrived = l.evs.iter().filter(|e| e.stage == Stage::Delivered && e.from == 1 && matches!(&*e.w, Wire::Pong) && e.seq < dseq).map(|e| e.t).last().unwrap_or(d0);
             // a pong consumed at the very instant of the fatal tick but after it in event order does not count
-            let decided_at = pings.last().map(|p| p.1 + ti).filter(|t| *t <= tau).unwrap_or(tau);
+            let decided_at = if plan.stuck_sink { fatal_tick } else { pings.last().map(|p| p.1 + ti).filter(|t| *t <= tau).unwrap_or(tau) };
             let age = decided_at.saturating_sub(last);
             o.probe("keepalive-timeout-fired", 1);
             if live_within_t {
                 // S2: every ping was answered within T, yet the endpoint timed out
-                if decided_at.saturating_sub(last_arrived) > tt {
+                if plan.flood_connects > cfg.stream_buf + 1 {
+                    o.violate("C16:timeout-live-peer:task-blocked-on-accept-backlog", format!("every ping was answered within T, but the connection task was blocked handing the {}th unaccepted stream to a full accept backlog (stream_buffer_size {}) and did not look at the pongs; {desc}", cfg.stream_buf + 2, cfg.stream_buf));
+                } else if decided_at.saturating_sub(last_arrived) > tt {
                     o.violate("C16:timeout-live-peer:last-pong-older-than-T", format!("every ping was answered within T but the gap between pongs exceeded T: last pong at {last:?}, timeout decided at {decided_at:?}; {desc}"));
                 } else {
                     o.violate("C16:timeout-live-peer:last-pong-within-T", format!("every ping was answered within T and the last pong to arrive ({last_arrived:?}; last one processed: {last:?}) was younger than T at the decision ({decided_at:?}), yet the endpoint timed out; {desc}"));
@@ -1041,7 +1084,7 @@ async fn run_c16_async(plan: C16Plan, sched: Sched, record: bool) -> Outcome {
             if dead_from.is_none() && t_ms > 0 && max_delay > t_ms + i_ms {
                 o.violate("C16:late-peer-undetected", format!("pings were answered only after more than T + I but no timeout occurred; {desc}"));
             }
-            if pings.len() < 40 {
+            if pings.len() < 40 && !(plan.stuck_sink && dead_from.is_some()) {
                 o.violate("C16:ping-schedule", format!("only {} pings were sent before the horizon; {desc}", pings.len()));
             }
             if live_within_t {
